@@ -11,10 +11,6 @@ EXTENDS Layout
 TagLess(a, b) == a[1] < b[1] \/ (a[1] = b[1] /\ a[2] < b[2])
 TagLeq(a, b) == a = b \/ TagLess(a, b)
 
-(* basic offset table entries: 32-bit unsigned values in the byte order of *)
-(* the transfer syntax                                                     *)
-OTEntries(ts, val) == [i \in 1..(Len(val) \div 4) |-> RdU32(ts, val, 4 * i - 3)]
-
 RECURSIVE NodeObj(_, _, _), NodesObj(_, _, _), ItemsObj(_, _, _)
 NodesObj(ns, ts, w) == IF ns = <<>> THEN <<>> ELSE <<NodeObj(Head(ns), ts, w)>> \o NodesObj(Tail(ns), ts, w)
 ItemsObj(its, ts, w) ==
@@ -35,6 +31,7 @@ NodeObj(n, ts, w) ==
          LET f == n.frags
              v(i) == ValBytes("OB", Act(f[i].dl, w), f[i].salt) IN
          [k |-> "X", tag |-> PixelTag, vr |-> "OB",
+          nitems |-> Len(f), otraw |-> IF f = <<>> THEN <<>> ELSE v(1),
           ot |-> IF f = <<>> THEN <<>> ELSE OTEntries(ts, v(1)),
           cmp |-> (f = <<>> \/ Act(f[1].dl, w) % 4 = 0),
           frags |-> [i \in 1..(IF f = <<>> THEN 0 ELSE Len(f) - 1) |-> v(i + 1)]]
